@@ -1,9 +1,362 @@
-"""Engine V: Verus on rustc-expanded, mechanically lowered real functions (stub until k2v lands)."""
+"""Engine V: Verus on rustc-expanded, mechanically lowered real functions.
+
+  scratch copy of /repo --(cargo +nightly rustc -Zunpretty=expanded)--> konst.exp.rs, konst_kernel.exp.rs
+  --(tools/k2v: select + lower + markers)--> items --(splice contracts/<unit>.vc at the markers)--> <unit>.rs
+  --(verus --output-json --time -- --error-format=json)--> per-function verdicts
+"""
+import json
 import os
-from .common import VERIF
+import re
+import threading
+
+from .common import VERIF, log, run
+
+K2V = os.path.join(VERIF, "tools", "k2v", "target", "release", "k2v")
+PRELUDE = os.path.join(VERIF, "verus", "prelude.rs")
+
+_expand_lock = threading.Lock()
+
+FAIL_MSGS = (
+    "postcondition not satisfied",
+    "precondition not satisfied",
+    "invariant not satisfied",
+    "assertion failed",
+    "possible arithmetic underflow/overflow",
+    "possible division by zero",
+    "decreases not satisfied",
+    "could not prove termination",
+    "possible bit shift underflow/overflow",
+    "loop invariant not satisfied",
+    "unreachable code might be reached",
+    "cannot show invariant holds",
+    "index out of bounds",
+    "possible truncation",
+)
+
+
+def ensure_k2v():
+    if os.path.exists(K2V):
+        return True, ""
+    r = run(["cargo", "build", "--release", "--offline"], cwd=os.path.join(VERIF, "tools", "k2v"), timeout=900)
+    return os.path.exists(K2V), (r["out"] + r["err"])[-2000:]
+
+
+def expand(scratch):
+    """rustc's own macro expansion of both crates of the scratch copy (cached per scratch)"""
+    with _expand_lock:
+        out = {}
+        errs = []
+        for crate, feats in (("konst", "rust_1_83"), ("konst_kernel", "rust_1_83,iter,__for_konst")):
+            dst = os.path.join(scratch.path, crate + ".exp.rs")
+            if not os.path.exists(dst):
+                r = run(["cargo", "+nightly", "rustc", "-p", crate, "--lib", "--offline", "--features", feats, "--", "-Zunpretty=expanded"],
+                        cwd=scratch.repo, timeout=900, env={"CARGO_TARGET_DIR": os.path.join(scratch.path, "exp-target")})
+                if r["rc"] != 0 or not r["out"].strip():
+                    errs.append("%s: rustc expansion failed:\n%s" % (crate, r["err"][-3000:]))
+                    continue
+                open(dst, "w").write(r["out"])
+            out[crate] = dst
+        return out, errs
+
+
+DIRECTIVE = re.compile(r"^%(\w+)\s*(.*)$")
+
+
+def parse_vc(path):
+    """contract unit file -> dict(req, prelude, items{name: {spec, body_start, loops{k:{spec,body_start,body_end,after}}}}, trusted, probes)"""
+    vc = dict(req=[], prelude=[], items={}, trusted=[], probes=[], order=[])
+    cur = None   # (list to append lines to)
+    item = None
+    for raw in open(path).read().splitlines():
+        m = DIRECTIVE.match(raw)
+        if m and m.group(1) in ("req", "prelude", "fn", "method", "body_start", "body_end", "loop", "trusted", "probe", "end"):
+            d, arg = m.group(1), m.group(2).strip()
+            if d == "req":
+                cur = vc["req"]
+            elif d == "prelude":
+                cur = vc["prelude"]
+            elif d == "trusted":
+                cur = vc["trusted"]
+            elif d == "probe":
+                vc["probes"].append(arg)
+                cur = None
+            elif d in ("fn", "method"):
+                item = dict(kind=d, name=arg, spec=[], body_start=[], body_end=[], loops={})
+                vc["items"][arg] = item
+                vc["order"].append(arg)
+                cur = item["spec"]
+            elif d == "body_start":
+                cur = item["body_start"]
+            elif d == "body_end":
+                cur = item["body_end"]
+            elif d == "loop":
+                parts = arg.split()
+                k = int(parts[0])
+                lp = item["loops"].setdefault(k, dict(spec=[], body_start=[], body_end=[], after=[]))
+                cur = lp[parts[1]] if len(parts) > 1 else lp["spec"]
+            elif d == "end":
+                cur = None
+            continue
+        if cur is not None:
+            if cur is vc["req"] or cur is vc["trusted"]:
+                line = raw.split("#")[0].strip() if cur is vc["req"] else raw.strip()
+                if line:
+                    cur.append(line)
+            else:
+                cur.append(raw)
+    return vc
+
+
+def clause_count(lines):
+    """rough count of contract clauses (for the evidence): top-level commas/keywords"""
+    text = "\n".join(lines)
+    return len(re.findall(r"\b(requires|ensures|invariant|decreases|assert|returns)\b", text)) + text.count(",\n")
+
+
+def splice_fn(text, item, name, problems):
+    """replace the markers of ONE function's text"""
+    loops_present = set(int(x) for x in re.findall(r"__K2V_LOOP_(\d+)_SPEC__", text))
+    if item is None:
+        item = dict(spec=[], body_start=[], body_end=[], loops={})
+    for k in item["loops"]:
+        if k not in loops_present:
+            problems.append("%s: contract names loop %d but the extracted function has loops %s (anchor lost)" % (name, k, sorted(loops_present)))
+    text = text.replace("__K2V_SPEC__", "\n" + "\n".join(item["spec"]) + "\n" if item["spec"] else "")
+    text = text.replace("__K2V_BODY_START_S__;", "\n".join(item["body_start"]))
+    text = text.replace("__K2V_BODY_END_S__;", "\n".join(item.get("body_end", [])))
+    for k in loops_present:
+        lp = item["loops"].get(k, dict(spec=[], body_start=[], body_end=[], after=[]))
+        text = text.replace("__K2V_LOOP_%d_SPEC__" % k, ("\n" + "\n".join(lp["spec"]) + "\n") if lp["spec"] else "")
+        text = text.replace("__K2V_LOOP_%d_BODY_START_S__;" % k, "\n".join(lp["body_start"]))
+        text = text.replace("__K2V_LOOP_%d_BODY_END_S__;" % k, "\n".join(lp["body_end"]))
+        text = text.replace("__K2V_LOOP_%d_AFTER_S__;" % k, "\n".join(lp["after"]))
+    return text, len(loops_present)
+
+
+ITEM_RE = re.compile(r"//@@ITEM (\w+) (\S+)(?: (\S+))?\n(.*?)//@@END\n", re.S)
+METHOD_TAG = re.compile(r"__K2V_METHOD_(\d+)_(\w+?)__")
+
+
+def assemble(k2v_out, vc, unit):
+    """-> (file text, fn_lines: [(first_line, last_line, fn name)], problems, info per fn)"""
+    problems = []
+    parts = []
+    info = {}
+    seen = set()
+    for m in ITEM_RE.finditer(k2v_out):
+        kind, path, alias, body = m.group(1), m.group(2), m.group(3), m.group(4)
+        if kind == "fn":
+            name = alias or path.rsplit("::", 1)[-1]
+            item = vc["items"].get(name)
+            seen.add(name)
+            text, nloops = splice_fn(body, item, name, problems)
+            parts.append((name, text))
+            info[name] = dict(path=path, loops=nloops, clauses=clause_count(item["spec"] + sum([l["spec"] for l in item["loops"].values()], [])) if item else 0,
+                              has_contract=bool(item and item["spec"]))
+        elif kind == "impl":
+            ty = path.rsplit("::", 1)[-1]
+            ordinal = (alias or "#0").lstrip("#")
+            # split the impl body at method tags
+            pieces = METHOD_TAG.split(body)
+            # pieces: [head, k, name, text, k, name, text, ...]
+            head = pieces[0]
+            out = [head]
+            names = []
+            for i in range(1, len(pieces), 3):
+                k, mname, mtext = pieces[i], pieces[i + 1], pieces[i + 2]
+                key = "%s#%s::%s" % (ty, k, mname)
+                alt = "%s::%s" % (ty, mname)
+                item = vc["items"].get(key) or vc["items"].get(alt)
+                used = key if key in vc["items"] else alt
+                seen.add(used)
+                t, nloops = splice_fn(mtext, item, key, problems)
+                out.append("\n//@@FN %s\n" % key)
+                out.append(t)
+                names.append(key)
+                info[key] = dict(path=path, loops=nloops, clauses=clause_count(item["spec"]) if item else 0, has_contract=bool(item and item["spec"]))
+            parts.append(("impl " + ty, "".join(out)))
+        else:
+            parts.append(("type " + path, body))
+    for name in vc["items"]:
+        if name not in seen:
+            problems.append("contract for `%s` has no extracted function (anchor lost: renamed or removed in /repo?)" % name)
+    prelude = open(PRELUDE).read()
+    lines = []
+    lines += ["// generated by /verif/lib/vrun/verus.py for unit %s — do not edit" % unit,
+              "#![allow(unused_imports, unused_variables, unused_mut, unused_assignments, dead_code, unused_parens, unused_braces, unreachable_code, non_snake_case)]",
+              "use vstd::prelude::*;", "use vstd::slice::*;", "use vstd::string::*;", "", "verus! {", ""]
+    lines += prelude.splitlines()
+    lines += ["", "// ---- unit prelude (" + unit + ".vc) ----"] + vc["prelude"] + [""]
+    fn_lines = []
+    for name, text in parts:
+        start = len(lines) + 1
+        tl = text.splitlines()
+        # methods inside impl blocks carry //@@FN tags for line attribution
+        cur_name, cur_start = name, start
+        for j, l in enumerate(tl):
+            mt = re.match(r"//@@FN (\S+)", l.strip())
+            if mt:
+                fn_lines.append((cur_start, start + j - 1, cur_name))
+                cur_name, cur_start = mt.group(1), start + j
+        lines += tl
+        fn_lines.append((cur_start, len(lines), cur_name))
+        lines.append("")
+    lines += ["} // verus!", "fn main() {}", ""]
+    return "\n".join(lines), fn_lines, problems, info
+
+
+def fn_at(fn_lines, line):
+    for a, b, n in fn_lines:
+        if a <= line <= b:
+            return n
+    return None
+
+
+def slug(s):
+    return re.sub(r"[^a-z0-9]+", "_", s.lower()).strip("_")[:60]
+
+
+def run_verus_file(path, workdir, timeout=900, rlimit=None):
+    cmd = ["verus", path, "--output-json", "--time", "--multiple-errors", "5"]
+    if rlimit:
+        cmd += ["--rlimit", str(rlimit)]
+    cmd += ["--", "--error-format=json"]
+    r = run(cmd, cwd=workdir, timeout=timeout, mem_gb=24)
+    js = None
+    try:
+        js = json.loads(r["out"][r["out"].index("{"):])
+    except Exception:
+        pass
+    diags = []
+    for line in r["err"].splitlines():
+        line = line.strip()
+        if line.startswith("{"):
+            try:
+                d = json.loads(line)
+                if d.get("$message_type") == "diagnostic" or "message" in d:
+                    diags.append(d)
+            except Exception:
+                pass
+    return dict(cmd=" ".join(cmd), js=js, diags=diags, rc=r["rc"], raw_err=r["err"][-4000:], timed_out=r["timed_out"], wall=r["wall"])
+
+
+def run_unit(scratch, prop, unit, exp, tier):
+    res = dict(violations=[], undecided=[], units=[], cmds=[], trusted=[], probes=None)
+    vc_path = os.path.join(VERIF, "contracts", unit + ".vc")
+    vc = parse_vc(vc_path)
+    res["trusted"] = ["[%s] %s" % (unit, t) for t in vc["trusted"]]
+    wd = os.path.join(scratch.path, "verus-" + unit)
+    os.makedirs(wd, exist_ok=True)
+    req = os.path.join(wd, "req.txt")
+    open(req, "w").write("\n".join(vc["req"]) + "\n")
+    cmd = [K2V]
+    for c, p in exp.items():
+        cmd += ["--crate", "%s=%s" % (c, p)]
+    cmd += ["--req", req]
+    r = run(cmd, timeout=300)
+    if r["rc"] != 0:
+        res["undecided"].append("engine V [%s]: k2v exit %s (anchor lost or construct outside the lowering subset):\n%s" % (unit, r["rc"], r["err"][-2500:]))
+        return res
+    text, fn_lines, problems, info = assemble(r["out"], vc, unit)
+    src = os.path.join(wd, unit + ".rs")
+    open(src, "w").write(text)
+    os.makedirs(os.path.join(VERIF, "logs"), exist_ok=True)
+    open(os.path.join(VERIF, "logs", "verus-%s.rs" % unit), "w").write(text)
+    if problems:
+        for p in problems:
+            res["undecided"].append("engine V [%s]: %s" % (unit, p))
+        return res
+    vr = run_verus_file(src, wd)
+    res["cmds"].append(vr["cmd"].replace(src, "<scratch>/verus-%s/%s.rs" % (unit, unit)))
+    open(os.path.join(VERIF, "logs", "verus-%s.err" % unit), "w").write(vr["raw_err"])
+    if vr["timed_out"] or vr["js"] is None:
+        res["undecided"].append("engine V [%s]: verus %s\n%s" % (unit, "timed out" if vr["timed_out"] else "produced no JSON", vr["raw_err"][-2000:]))
+        return res
+    js = vr["js"]
+    # per-function verdicts
+    verdict = {}
+    smt = {}
+    try:
+        for mod in js["times-ms"]["smt"]["smt-run-module-times"]:
+            for fb in mod.get("function-breakdown", []):
+                name = fb["function"].split("::")[-1]
+                full = fb["function"]
+                verdict[full] = fb.get("success", False)
+                smt[full] = fb.get("time", 0)
+    except Exception:
+        pass
+    errors = [d for d in vr["diags"] if d.get("level") == "error" and "aborting due to" not in d.get("message", "")]
+    hard = []      # not verification failures: type errors, unsupported, rlimit
+    failed_fns = {}
+    for d in errors:
+        msg = d.get("message", "")
+        spans = d.get("spans", [])
+        prim = [s for s in spans if s.get("is_primary")] or spans
+        line = prim[0]["line_start"] if prim else 0
+        fn = None
+        for s in spans:
+            fn = fn or fn_at(fn_lines, s["line_start"])
+        snippet = (prim[0]["text"][0]["text"].strip() if prim and prim[0].get("text") else "")[:160]
+        if any(msg.startswith(f) or f in msg for f in FAIL_MSGS) and fn:
+            failed_fns.setdefault(fn, []).append(dict(message=msg, line=line, snippet=snippet, rendered=d.get("rendered", "")[:1500]))
+        elif "rlimit" in msg.lower() or "resource limit" in msg.lower():
+            res["undecided"].append("engine V [%s]: %s in %s (solver resource limit; no verdict)" % (unit, msg, fn))
+        else:
+            hard.append("%s @%s:%d %s" % (msg, fn, line, snippet))
+    if hard:
+        res["undecided"].append("engine V [%s]: Verus rejected the extracted file before/outside verification (not a property verdict):\n  " % unit + "\n  ".join(hard[:8]))
+    vresults = js.get("verification-results", {})
+    for name, inf in info.items():
+        short = name.split("::")[-1]
+        full_candidates = [f for f in verdict if f.endswith("::" + short) or f == short]
+        ok = None
+        st = "verified"
+        if name in failed_fns:
+            st = "failed"
+        elif hard:
+            st = "not-checked"
+        smt_ms = sum(smt.get(f, 0) for f in full_candidates)
+        res["units"].append(dict(engine="verus", kind="contract", unit=unit, function=name, path=inf["path"], status=st, smt_ms=smt_ms,
+                                 clauses=inf["clauses"], loops=inf["loops"], has_contract=inf["has_contract"], tier="quick", bound="unbounded"))
+    for fn, fails in failed_fns.items():
+        for f in fails:
+            ob = "V.%s.%s" % (fn, slug(f["message"]))
+            res["violations"].append(dict(obligation=ob, engine="verus", function=fn, site=fn, location="%s:%d" % (unit + ".rs", f["line"]),
+                                          values=None, reproduced=False, verifier_output=f["rendered"], snippet=f["snippet"], unit=unit))
+    res["verified_count"] = vresults.get("verified", 0)
+    res["error_count"] = vresults.get("errors", 0)
+    return res
+
 
 def run_units(scratch, prop, units, tier):
-    have = [u for u in units if os.path.exists(os.path.join(VERIF, "contracts", u + ".toml"))]
+    have = [u for u in units if os.path.exists(os.path.join(VERIF, "contracts", u + ".vc"))]
     if not have:
         return {}
-    return {}
+    ok, blog = ensure_k2v()
+    out = dict(violations=[], undecided=[], units=[], cmds=[], trusted=[], probes=None)
+    if not ok:
+        out["undecided"].append("engine V: k2v is not built (run bin/setup):\n" + blog)
+        return out
+    exp, errs = expand(scratch)
+    if errs:
+        out["undecided"] += ["engine V: " + e for e in errs]
+        return out
+    results = {}
+
+    def work(u):
+        try:
+            results[u] = run_unit(scratch, prop, u, exp, tier)
+        except Exception as e:  # tool crash: undecided, never an alarm
+            import traceback
+            results[u] = dict(violations=[], undecided=["engine V [%s]: runner exception %r\n%s" % (u, e, traceback.format_exc()[-1500:])], units=[], cmds=[], trusted=[])
+
+    ths = [threading.Thread(target=work, args=(u,)) for u in have]
+    for t in ths:
+        t.start()
+    for t in ths:
+        t.join()
+    for u in have:
+        r = results[u]
+        for k in ("violations", "undecided", "units", "cmds", "trusted"):
+            out[k] += r.get(k, [])
+    return out
